@@ -54,7 +54,7 @@ MANIFEST = dict(
                 "known finding). Model tied to the real broker on every run by snapshot correspondence."),
     level_note=("Trusted: Coq kernel + vm_compute; hand-written model validated on sampled histories only; step atomicity as listed in "
                 "assumptions; sub-step interleavings inside one teardown are covered by the theorem's granularity only as far as the "
-                "critical sections are atomic in the code (they are under the proposed fix, not in the pinned code)."),
+                "critical sections are atomic in the code (they are under the proposed repair fixes/C16-takeover-guarded-teardown.diff, which was NOT applied: KF-C16-takeover-teardown stays an open known finding, see DESIGN 12.3)."),
     technique="Coq proof (inductive invariant over all event traces) + snapshot correspondence by vm_compute",
 )
 
